@@ -28,6 +28,7 @@ DIMS = {
     "supers": ["", ": Sized", ": Send + Sync", ": 'static", ": ::core::fmt::Debug"],
     "where": ["", "where Self: Sized", "where u8: Copy, Self: Send", "where Self: Send, Self: Sync, u8: Copy, u8: Clone"],
     "mattrs": [()] + [(a,) for a in MATTRS],
+    "pattr": [False, True],     # an attribute on a method parameter
     "body": [False, True],
     "assoc": ["", "type A;", "type A: Clone + Default;", "type A; fn g(&self) -> Self::A;"],
     "async": [False, True, "at"],      # "at": async fn + `#[async_trait]` below entrait (and on the user's impl)
@@ -78,7 +79,7 @@ def trait_src(s):
     if val(s, "assoc"):
         L.append("    " + val(s, "assoc"))
     L += ["    " + MATTRS[a] for a in val(s, "mattrs")]
-    sig = "%sfn m(&self, a: i64) -> i64" % ("async " if val(s, "async") else "")
+    sig = "%sfn m(&self, %sa: i64) -> i64" % ("async " if val(s, "async") else "", "#[allow(unused_variables)] " if val(s, "pattr") else "")
     L.append("    " + sig + (" { a + 100 }" if val(s, "body") else ";"))
     if val(s, "second"):
         L.append("    " + val(s, "second"))
